@@ -99,6 +99,8 @@ class Case:
         self.corpus_path = kw.get('corpus_path')
         self.stdout_full = kw.get('stdout_full', False)
         self.text = kw.get('text', False)
+        self.res_dir = kw.get('res_dir')            # explicit --resources-dir (file or stdin input)
+        self.stdin_no_res = kw.get('stdin_no_res', False)   # stdin without --resources-dir
         self.prefill = kw.get('prefill', False)   # the output path already holds a LONGER junk file
         self.expect = kw.get('expect')      # documented exit status (HELP text ranges), independent of the model
 
@@ -213,6 +215,39 @@ def disguised_text_docs():
            (gzip.compress(ns.encode(), mtime=0), 'svgz + prefixed namespace'), (ent.encode(), 'entity in tag name (malformed)')]
     for d, _ in out[:3]:
         assert b'<text' not in d
+    return out
+
+
+def tiny_png(w, h, rgba):
+    def chunk(t, d):
+        return struct.pack('>I', len(d)) + t + d + struct.pack('>I', zlib.crc32(t + d) & 0xffffffff)
+    raw = b''.join(b'\x00' + bytes(rgba) * w for _ in range(h))
+    return PNG_SIG + chunk(b'IHDR', struct.pack('>IIBBBBB', w, h, 8, 6, 0, 0, 0)) + chunk(b'IDAT', zlib.compress(raw)) + chunk(b'IEND', b'')
+
+
+def resource_dirs(wd):
+    """two directories holding a DIFFERENT picture under the same relative name, and a document in the first one that refers to it
+    by a relative href.  -> (document path, dirA = the input's directory, dirB)"""
+    da, db = os.path.join(wd, 'resA'), os.path.join(wd, 'resB')
+    for d, col in ((da, (220, 30, 30, 255)), (db, (30, 60, 220, 255))):
+        os.makedirs(os.path.join(d, 'img'), exist_ok=True)
+        with open(os.path.join(d, 'img', 'pic.png'), 'wb') as f:
+            f.write(tiny_png(6, 4, col))
+    doc = os.path.join(da, 'in.svg')
+    with open(doc, 'w') as f:
+        f.write('<svg %s width="30" height="20"><rect width="30" height="20" fill="#dddddd"/>'
+                '<image id="i" x="3" y="2" width="24" height="16" xlink:href="img/pic.png"/></svg>' % NS)
+    return doc, da, db
+
+
+def resource_cases(wd):
+    """Options::resources_dir as the tool must set it: explicit --resources-dir wins, else the input file's directory, else none."""
+    doc, da, db = resource_dirs(wd)
+    out = []
+    for kw in (dict(), dict(res_dir=db), dict(res_dir=da), dict(stdin=True, res_dir=db), dict(stdin=True, res_dir=da),
+               dict(stdin=True, stdin_no_res=True), dict(res_dir=db, z='2'), dict(res_dir=db, export_id='i'),
+               dict(res_dir=db, stdout=True), dict(res_dir=os.path.join(wd, 'no-such-dir'))):
+        out.append(Case(None, kind='resources-dir', corpus_path=doc, expect=0, **kw))
     return out
 
 
@@ -394,13 +429,17 @@ def run_case(rb, c, idx, wd):
         argv.append('--query-all')
     argv += c.extra
     argv += fonts_args()
+    if c.res_dir:
+        argv += ['--resources-dir', c.res_dir]
     if c.stdin:
-        argv += ['--resources-dir', wd, '-']
+        if not c.res_dir and not c.stdin_no_res:
+            argv += ['--resources-dir', wd]
+        argv.append('-')
     else:
         argv.append(inp)
     if not c.no_output_arg:
         argv.append('-c' if c.stdout else outp)
-    stdin_data = (c.doc or b'') if c.stdin else None
+    stdin_data = ((open(c.corpus_path, 'rb').read() if c.corpus_path else c.doc) or b'') if c.stdin else None
     stdout_target = subprocess.PIPE
     fh = None
     if c.stdout_full:
@@ -439,9 +478,13 @@ def lib_payload(c, r, with_png):
         opts += ";dpi=%s" % c.dpi
     if c.lib_opts:
         opts += ";" + c.lib_opts
-    if c.stdin:
+    if c.res_dir:
+        opts += ";res=" + c.res_dir          # the property: Options.resources_dir = the explicit directory
+    elif c.stdin and not c.stdin_no_res:
         opts += ";res=" + os.path.dirname(r['outp'])
-    if c.corpus_path:
+    if c.corpus_path and c.stdin:
+        doc = 'hex:' + open(c.corpus_path, 'rb').read().hex()      # stdin: no input directory
+    elif c.corpus_path:
         doc = '@' + c.corpus_path
     else:
         doc = 'hex:' + (c.doc or b'').hex()
@@ -649,7 +692,7 @@ def _run(ctx, rng, quick, binp, rb, ub, wd, proof_ok, res, broken):
                           % (fit_items[b], outs[b]), dict(op='c20-fit', payload=fit_items[b], impl=outs[b], model_expr=fit_coq[b]))
 
     # ------------------------------------------------------------------ the real binary on the option grid
-    cases = gen_cases(rng, quick) + corpus_cases(ctx, quick)
+    cases = gen_cases(rng, quick) + corpus_cases(ctx, quick) + resource_cases(wd)
     with cf.ThreadPoolExecutor(max_workers=12) as ex:
         runs = list(ex.map(lambda ic: run_case(rb, ic[1], ic[0], wd), enumerate(cases)))
     # library facts (+ pixel comparison when a PNG was produced)
@@ -907,6 +950,11 @@ def usvg_oracle(ctx, rng, quick, binp, ub, wd):
         for m_, (argv_, wo_) in enumerate([([], []), ([], []), (['--preserve-text'], ['preserve_text']), (['--indent', '2'], ['indent=2'])]):
             jobs.append(dict(path=pth, argv=list(argv_), lopts='-', wopts=';'.join(wo_) or '-', mode=(1 if m_ == 1 else 0), idx=6000 + 10 * j + m_,
                              must_fail=bad, prefill=(m_ == 3)))
+    # resources_dir: explicit --resources-dir wins over the input's directory; stdin has none unless given
+    rdoc, rda, rdb = resource_dirs(wd)
+    for m_, (mode_, res_) in enumerate([(0, None), (0, rdb), (0, rda), (1, rdb), (1, None), (2, rdb)]):
+        jobs.append(dict(path=rdoc, argv=(['--resources-dir', res_] if res_ else []), lopts=('res=' + res_ if res_ else '-'), wopts='-',
+                         mode=mode_, idx=7000 + m_, res_explicit=res_, stdin_no_res=(mode_ == 1 and res_ is None)))
     # failure behaviour
     for j, (data, what) in enumerate(MALFORMED):
         p = os.path.join(wd, 'u-bad-%d.svg' % j)
@@ -933,7 +981,9 @@ def usvg_oracle(ctx, rng, quick, binp, ub, wd):
         stdin_data = None
         if j['mode'] == 1 and not j.get('missing'):      # stdin -> file
             stdin_data = open(j['path'], 'rb').read()
-            argv += ['--resources-dir', os.path.dirname(j['path']), '-', outp]
+            if not j.get('res_explicit') and not j.get('stdin_no_res'):
+                argv += ['--resources-dir', os.path.dirname(j['path'])]
+            argv += ['-', outp]
         elif j['mode'] == 2:                              # file -> stdout
             argv += [j['path'], '-c']
         else:
@@ -956,9 +1006,12 @@ def usvg_oracle(ctx, rng, quick, binp, ub, wd):
     payloads = []
     for j, r in zip(jobs, rs):
         lo = j['lopts']
-        if j['mode'] == 1:
+        if j['mode'] == 1 and not j.get('res_explicit') and not j.get('stdin_no_res'):
             lo = (lo + ';' if lo != '-' else '') + 'res=' + os.path.dirname(j['path'])
-        payloads.append("\t".join([lo, '@' + j['path'], j['wopts'], r['outp']]))
+        docref = '@' + j['path']
+        if j['mode'] == 1 and j.get('stdin_no_res'):
+            docref = 'hex:' + open(j['path'], 'rb').read().hex()      # stdin without --resources-dir: no directory at all
+        payloads.append("\t".join([lo, docref, j['wopts'], r['outp']]))
     outs = ctx.rvh_batch(binp, 'c20-usvg', payloads, per_item_timeout=60)
     nok = 0
     for j, r, o in zip(jobs, rs, outs):
